@@ -199,6 +199,30 @@ const i32 K = 111
 const string NAME = "inner"
 `
 
+const historyThrift = `namespace go corpus.history
+struct Inner { 1: i32 n = 7, 2: string name = "in" }
+const list<i32> BASE_SCORES = [10, 20]
+const Inner BASE_INNER = {"n": 3}
+struct Item {
+  1: optional list<i32> scores = [1, 2, 3],
+  2: list<i32> dscores = [4, 5],
+  3: optional map<string, i32> ages = {"a": 1},
+  4: map<i32, string> dnames = {1: "x"},
+  5: optional Inner inner = {"n": 9},
+  6: Inner dinner = {"name": "given"},
+  7: optional binary blob = "abc",
+  8: binary dblob = "xyz",
+  9: optional set<string> tags = ["t"],
+  10: optional list<Inner> inners = [{"n": 1}],
+  11: optional list<list<i32>> nested = [[1], [2]],
+  12: i32 plain = 5,
+  13: optional map<string, list<i32>> table = {"k": [1]},
+}
+struct Shared { 1: optional list<i32> s = BASE_SCORES, 2: Inner i = BASE_INNER }
+struct Bag { 1: list<Item> items, 2: list<Shared> shared, 3: map<string, Item> byname }
+exception XD { 1: optional list<string> trace = ["f"], 2: string msg = "m" }
+`
+
 const negzeroThrift = `namespace go corpus.negzero
 const double NZ = -0.0
 const list<double> LNZ = [-0.0, 0.0]
@@ -239,6 +263,7 @@ func corpus(tier string) []corpusProg {
 		{Key: "ways", Main: "ways.thrift", Files: map[string]string{"ways.thrift": waysThrift, "inc.thrift": incThrift}},
 		{Key: "foreign", Main: "foreign.thrift", Files: map[string]string{"foreign.thrift": foreignThrift, "lib.thrift": libThrift, "lib2.thrift": lib2Thrift, "lib3.thrift": lib3Thrift}},
 		{Key: "shadow", Main: "shadow.thrift", Files: map[string]string{"shadow.thrift": shadowThrift, "shadowed.thrift": shadowedThrift}},
+		{Key: "history", Main: "history.thrift", Files: map[string]string{"history.thrift": historyThrift}},
 		{Key: "negzero", Main: "negzero.thrift", Files: map[string]string{"negzero.thrift": negzeroThrift}},
 		{Key: "tolerant", Main: "tolerant.thrift", Files: map[string]string{"tolerant.thrift": tolerantThrift}},
 		{Key: "structkey", Main: "structkey.thrift", Files: map[string]string{"structkey.thrift": structkeyThrift}},
